@@ -80,7 +80,15 @@ func init() {
 		"internal/bytealg.CountString":     func(fr *frame, a []value) value { return strings.Count(a[0].(string), string([]byte{a[1].(byte)})) },
 		"internal/bytealg.IndexString":     func(fr *frame, a []value) value { return strings.Index(a[0].(string), a[1].(string)) },
 		"internal/bytealg.LastIndexByteString": func(fr *frame, a []value) value { return strings.LastIndexByte(a[0].(string), a[1].(byte)) },
-		"internal/stringslite.Index":       func(fr *frame, a []value) value { return strings.Index(a[0].(string), a[1].(string)) },
+		"internal/bytealg.MakeNoZero": func(fr *frame, a []value) value {
+			n := int(asInt64(a[0]))
+			s := make([]value, n)
+			for i := range s {
+				s[i] = byte(0)
+			}
+			return s
+		},
+		"internal/stringslite.Index":      func(fr *frame, a []value) value { return strings.Index(a[0].(string), a[1].(string)) },
 		"internal/stringslite.IndexByte":   func(fr *frame, a []value) value { return strings.IndexByte(a[0].(string), a[1].(byte)) },
 
 		// errors / fmt
